@@ -26,7 +26,7 @@ type c20Case struct {
 	Threshold int      `json:"threshold"`
 	Mock      bool     `json:"mock"`
 	Recovery  string   `json:"recovery"` // "inf" | "zero" | "real"
-	Ops       []string `json:"ops"`      // "ok" | "err" | "panic" | "wait" | "half"
+	Ops       []string `json:"ops"`      // "ok" | "err" | "panic" | "wait" | "half" | "slowB" | "slowE:err" | "slowE:ok"
 }
 
 const c20RealRecovery = 60 * time.Millisecond
@@ -52,14 +52,31 @@ func c20Run(t *tr.Writer, id int, c c20Case) {
 	var mu sync.Mutex
 	invoked := 0
 	var script string
+	var slowDone chan error
 	var lastFailLo, lastFailHi time.Time // the failure time stamp was taken inside [lo, hi]
 	haveFail := false
 	var nextReturn time.Time
+	slowRelease := make(chan string) // the outcome the parked slow call is released with
+	slowEntered := make(chan struct{}, 1)
+	var slowReturn time.Time
 	scripted := func(ctx context.Context, request []byte, next core.NextIOHandler) ([]byte, error) {
 		mu.Lock()
 		invoked++
 		s := script
 		mu.Unlock()
+		if s == "slow" {
+			// a call that overlaps the following ones: it stays below the breaker until the driver releases it
+			mu.Lock()
+			script = "ok"
+			mu.Unlock()
+			slowEntered <- struct{}{}
+			o := <-slowRelease
+			slowReturn = time.Now()
+			if o == "ok" {
+				return []byte(`Rs2"ok"z`), nil
+			}
+			return nil, errors.New("scripted-error")
+		}
 		defer func() { nextReturn = time.Now() }()
 		switch s {
 		case "ok":
@@ -80,6 +97,44 @@ func c20Run(t *tr.Writer, id int, c c20Case) {
 		}
 		if op == "half" { // a wait that does not reach the recovery time by itself
 			time.Sleep(c20RealRecovery * 6 / 10)
+			continue
+		}
+		if op == "slowB" {
+			// start the overlapping call; the breaker must be closed here (the scripts see to it)
+			mu.Lock()
+			script = "slow"
+			before := invoked
+			mu.Unlock()
+			slowDone = make(chan error, 1)
+			go func() {
+				_, err := client.Invoke("f", nil)
+				slowDone <- err
+			}()
+			select {
+			case <-slowEntered:
+			case <-time.After(2 * time.Second):
+			}
+			mu.Lock()
+			fwd := invoked > before
+			mu.Unlock()
+			t.Emit(tr.Rec{"ev": "slowB", "fwd": fwd})
+			continue
+		}
+		if op == "slowE:err" || op == "slowE:ok" {
+			o := op[6:]
+			t0 := time.Now()
+			slowRelease <- o
+			err := <-slowDone
+			t1 := time.Now()
+			_ = t0
+			if o == "err" {
+				lastFailLo, lastFailHi, haveFail = slowReturn, t1, true
+			}
+			res := "ok"
+			if err != nil {
+				res = "err"
+			}
+			t.Emit(tr.Rec{"ev": "slowE", "o": o, "res": res})
 			continue
 		}
 		mu.Lock()
@@ -214,6 +269,18 @@ func runC20(a Args) tr.Summary {
 			append(append([]string{}, open...), "half", "err", "half", "ok", "half", "ok", "wait", "ok"),
 			append(append([]string{}, open...), "ok", "half", "ok", "ok", "half", "ok", "ok"))
 	}
+	// a call that overlaps: it starts while the breaker is closed, fails after the breaker has opened; the
+	// recovery time runs from that last failure
+	for th := 0; th <= 2; th++ {
+		open := []string{"slowB"}
+		for k := 0; k <= th; k++ {
+			open = append(open, "err")
+		}
+		scripted = append(scripted,
+			append(append([]string{}, open...), "half", "slowE:err", "half", "ok", "wait", "ok", "ok"),
+			append(append([]string{}, open...), "half", "slowE:ok", "ok", "err"),
+			append(append([]string{}, open...), "slowE:err", "half", "ok", "half", "ok", "ok"))
+	}
 	for i := 0; i < nReal+len(scripted); i++ {
 		th := rng.Intn(3)
 		mock := rng.Intn(2) == 0
@@ -235,7 +302,7 @@ func runC20(a Args) tr.Summary {
 		}
 		if i >= nReal {
 			ops = scripted[i-nReal]
-			th, mock = (i-nReal)/3, i%2 == 0
+			th, mock = (i-nReal)/3%3, i%2 == 0
 		}
 		c := c20Case{th, mock, "real", ops}
 		idmu.Lock()
